@@ -28,8 +28,9 @@ def sqlstate_classifier(exc: BaseException) -> ErrorClass:
 
     try:
         code = str(sqlstate)
-    except ValueError:
-        # e.g. an int beyond the interpreter's int->str digit limit: not a SQLSTATE
+    except Exception:
+        # str() of an arbitrary attribute value can fail (an int beyond the int->str digit
+        # limit, a container nested deeper than the recursion limit): not a SQLSTATE
         return ErrorClass.UNKNOWN
     if code in {"40001", "40P01"}:
         return ErrorClass.CONCURRENCY
